@@ -231,6 +231,9 @@ func init() {
 			{Name: "C03_symbols", Expect: []string{"end", "denoted-instruction"}, Witnesses: 8,
 				Quick:    grid([]string{"entry", "style"}, []int{0, 1, 2, 3}, []int{0, 1}),
 				Thorough: grid([]string{"entry", "style"}, []int{0, 1, 2, 3}, []int{0, 1, 2, 3, 4, 5})},
+			{Name: "C03_labels", Expect: []string{"end"}, Witnesses: 4,
+				Quick:    grid([]string{"form"}, seq(0, 5)),
+				Thorough: grid([]string{"form"}, seq(0, 5))},
 			{Name: "C03_text", Expect: []string{"end", "denoted-instruction"}, Witnesses: 8, TerminationClaim: true,
 				Quick:    grid([]string{"dialect"}, []int{0, 1}),
 				Thorough: grid([]string{"dialect"}, []int{0, 1})},
@@ -360,6 +363,9 @@ func init() {
 				Quick:    grid([]string{"M", "legacy", "len", "op", "sym"}, []int{3, 8, 8000, 8001, 55440}, []int{0, 1}, []int{1, 2}, []int{1}, []int{1}),
 				Thorough: grid([]string{"M", "legacy", "len", "op", "sym"}, []int{3, 8, 8000, 8001, 8192, 55440}, []int{0, 1}, []int{1, 2, 3}, []int{1, 2}, []int{1})},
 			{Name: "C16_listing", Expect: []string{"end", "listing-denotes-instruction"}, Witnesses: 4,
+				Quick:    grid([]string{"M", "legacy", "len", "op", "sym"}, []int{8, 80}, []int{2}, []int{1}, []int{1, 0, 4, 10}, []int{0}),
+				Thorough: grid([]string{"M", "legacy", "len", "op", "sym"}, []int{3, 8, 80, 800}, []int{2}, []int{1}, seq(0, 16), []int{0})},
+			{Name: "C16_listing", Expect: []string{"end", "listing-denotes-instruction"}, Witnesses: 4,
 				Quick:    grid([]string{"M", "legacy", "len", "op", "sym", "api"}, []int{8, 8000}, []int{0, 1}, []int{2}, []int{1}, []int{1}, []int{1}),
 				Thorough: grid([]string{"M", "legacy", "len", "op", "sym", "api"}, []int{3, 8, 8000, 8001, 55440}, []int{0, 1}, []int{1, 2, 3}, []int{1}, []int{1}, []int{1})},
 		},
@@ -376,6 +382,9 @@ func init() {
 	Properties = append(Properties, &PropertySpec{
 		ID: "C09", UsesEvalModel: true,
 		Harnesses: []HarnessSpec{
+			{Name: "C09_history", Expect: []string{"end"}, Witnesses: 4,
+				Quick:    grid([]string{"legacy"}, []int{0, 1}),
+				Thorough: grid([]string{"legacy"}, []int{0, 1})},
 			{Name: "C09_names", Expect: []string{"end", "loader-name-roundtrip", "assembler-name-roundtrip"}, Witnesses: 4,
 				Quick:    grid([]string{"legacy"}, []int{0, 1}),
 				Thorough: grid([]string{"legacy"}, []int{0, 1})},
@@ -392,7 +401,7 @@ func init() {
 		ID: "C17", UsesEvalModel: true,
 		Harnesses: []HarnessSpec{
 			{Name: "C17_main", WithCmd: true, Expect: []string{"end", "stdout-equals-tallies"}, Witnesses: 6,
-				Quick:    append(grid([]string{"warriors", "use88", "preset", "fixed", "maxRounds"}, []int{1, 2}, []int{0, 1}, []int{0}, []int{0, 9}, []int{2}), grid([]string{"warriors", "use88", "preset", "fixed", "maxRounds"}, []int{2}, []int{0, 1}, []int{0}, []int{4, 11}, []int{2})...),
+				Quick:    append(grid([]string{"warriors", "use88", "preset", "fixed", "maxRounds"}, []int{1, 2}, []int{0, 1}, []int{0}, []int{0, 9}, []int{2}), append(grid([]string{"warriors", "use88", "preset", "fixed", "maxRounds"}, []int{2}, []int{0, 1}, []int{0}, []int{4, 11}, []int{2}), Params{"warriors": 2, "use88": 0, "preset": 1, "fixed": 30, "maxRounds": 1})...),
 				Thorough: append(grid([]string{"warriors", "use88", "preset", "fixed", "maxRounds"}, []int{1, 2}, []int{0, 1}, []int{0}, []int{0, 4, 5, 8, 9, 11, 12}, []int{3}), grid([]string{"warriors", "use88", "preset", "fixed", "maxRounds"}, []int{1, 2}, []int{0}, []int{1}, []int{0, 30}, []int{2})...)},
 		},
 	})
